@@ -101,6 +101,8 @@ func runCheck(id, tier string) int {
 	switch id {
 	case "C01":
 		return checkC01(tier)
+	case "C02", "C03":
+		return checkLedger(id, tier)
 	}
 	fmt.Println("unknown check", id)
 	return 2
